@@ -172,6 +172,13 @@ func VerifRealloc(arg string) {
 		vAssert("C33/keeps-numa-node", newW.NUMANode == origin.NUMANode)
 	}
 
+	// dropping the binding clears every trace of it in the recorded resources
+	if mode == 2 {
+		vCover("realloc-unbound", true)
+		vAssert("C08/unbind-clears-the-cpu-map", len(newW.CPUMap) == 0)
+		vAssert("C08/unbind-clears-the-numa-node", newW.NUMANode == "" && len(newW.NUMAMemory) == 0)
+	}
+
 	// commit the delta as the resource manager does
 	_, err = p.SetNodeResourceUsage(ctx, "node", nil, nil, []plugintypes.WorkloadResource{resp.DeltaResource}, true, true)
 	vAssert("C08/realloc-commit-accepted", err == nil)
